@@ -80,6 +80,27 @@ Theorem C06_max_prior_is_operator_prior :
 Proof. exact max_prior_uniform. Qed.
 Print Assumptions C06_max_prior_is_operator_prior.
 
+(* The three facts composed, for the whole reduce phase of a state of ANY grammar whose
+   only complete item is production p (think E -> E op1 E .) with lookahead set F and
+   which holds the SHIFT of x (think op2): whatever the order of the items -- hence of
+   the alternatives in the rule -- and whatever else is in the state, the cell of x
+   ends up as the conventional decision between p and the productions shifting x. *)
+Theorem C06_operator_state_cell :
+  forall g meta pse state_sym items shifts p F t s' x q c,
+    work_of g items = map (fun t => (p, t)) F -> NoDup F -> In t F ->
+    assoc t shifts = Some [Shift s'] -> state_sym s' = Some x ->
+    (forall it, In it items -> sym_at g it = Some x -> pm_prior (meta (ri_prod it)) = q) ->
+    (exists it, In it items /\ sym_at g it = Some x) ->
+    rhs_of g p <> [] ->
+    reduce_phase g meta false pse state_sym items shifts = Some c ->
+    assoc t c = Some (match decide (pm_prior (meta p)) (pm_assoc (meta p)) q with
+                      | DShift => [Shift s']
+                      | DReduce => [Reduce p]
+                      | DConflict => [Shift s'; Reduce p]
+                      end).
+Proof. exact op_state_cell. Qed.
+Print Assumptions C06_operator_state_cell.
+
 (* Adding priorities/associativities/strategies to a state whose unresolved cells are
    conflict-free changes nothing: the resolution code is reached only on an occupied
    cell.  For every grammar, state, lookahead sets and meta-data. *)
@@ -116,6 +137,24 @@ Proof.
   exists (fun _ => 1), (fun _ => ASSOC_NONE), [TNum; TOp 0; TNum; TOp 0; TNum].
   eexists. split; vm_compute; reflexivity.
 Qed.
+
+(* ---- non-vacuity of C06_operator_state_cell: the state after "E + E" of
+   E: E '+' E {left, 1} | E '*' E {left, 2} | 'n'  (terminals + = 0, * = 1, n = 2, STOP = 3) *)
+Definition sg : grammar :=
+  [mkProd 0 [NT 1; T 3]; mkProd 1 [NT 1; T 0; NT 1]; mkProd 1 [NT 1; T 1; NT 1]; mkProd 1 [T 2]].
+Definition smeta (p : N) : pmeta :=
+  match p with 1 => mkMeta 1 ASSOC_LEFT false false | 2 => mkMeta 2 ASSOC_LEFT false false
+          | _ => default_meta end.
+Definition sitems : list ritem :=
+  [mkRItem 2 1%nat []; mkRItem 1 3%nat [0; 1; 3]; mkRItem 1 1%nat []].
+Definition sshifts : actions := [(1, [Shift 5%nat]); (0, [Shift 4%nat])].
+Definition sss (s : nat) : option sym :=
+  match s with 4%nat => Some (T 0) | 5%nat => Some (T 1) | _ => None end.
+Example C06_operator_state_nonvacuous :
+  work_of sg sitems = map (fun t => (1, t)) [0; 1; 3] /\
+  reduce_phase sg smeta false false sss sitems sshifts
+  = Some [(1, [Shift 5%nat]); (0, [Reduce 1]); (3, [Reduce 1])].
+Proof. split; vm_compute; reflexivity. Qed.
 
 (* ---- non-vacuity: 1 + 2 * 3 ^ 4 ^ 5 - 6 with + - left 1, * left 2, ^ right 3 -- *)
 Definition ex_pr (o : N) : N := match o with 0 => 1 | 1 => 1 | 2 => 2 | _ => 3 end.
